@@ -145,3 +145,10 @@ Definition getA {A} (d : A) (l : list A) (i : Z) : A := nth (pyidx (zlen l) i) l
 Definition vsubs (a : list Q) (s : Q) : list Q := map (fun x => (x - s)%Q) a.     (* array - scalar *)
 Definition vdivs (a : list Q) (s : Q) : list Q := map (fun x => (x / s)%Q) a.     (* array / scalar *)
 Definition onesQ (n : Z) : list Q := repeat 1%Q (Z.to_nat n).                     (* np.ones_like *)
+(* for x in <list>: ... with break: the body returns (state, broke) *)
+Fixpoint for_list_brk_p_aux {S} (l : list Z) (body : Z -> S -> S * bool) (s : S) : S :=
+  match l with
+  | [] => s
+  | x :: t => let '(s', b) := body x s in if b then s' else for_list_brk_p_aux t body s'
+  end.
+Definition for_list_brk_p {S} (l : list Z) (dummy : unit) (s : S) (body : Z -> S -> S * bool) : S := for_list_brk_p_aux l body s.
